@@ -311,7 +311,7 @@ def run(ctx):
     good = [r for r in recs if ver[r['id']]['ok'] and r['kind'] == 'peaks' and len(r['out']) >= 1][:4]
     bad = []
     for k, r in enumerate(good):
-        r2 = json.loads(json.dumps(r)); r2['id'] = 10**9 + k
+        r2 = core.jcopy(r); r2['id'] = 10**9 + k
         r2['out'][0] = [(r2['out'][0][0] + 1) % len(r2['data']), r2['out'][0][1]]
         bad.append(r2)
     if bad:
